@@ -28,6 +28,17 @@ class CallModelsMixin:
             if "str" in p.ty or "?" in p.ty or not p.ty:
                 self.may_raise("ValueError", node=node)
 
+    def _int_of(self, pos, node, d, m) -> Val:
+        """int(x): a library integer — unless x is a float the library itself introduced (kind L: the
+        truncation hides a rounding error, e.g. a binomial coefficient computed in floats)"""
+        if pos and self.A.exact:
+            fs = frozenset(f for f in pos[0].all_fsrc() if not isinstance(f, tuple))
+            if "F" in pos[0].all_kinds() and fs:
+                return Val(ty={"int"}, kind={"L"}, fsrc=frozenset({f"{self.loc(node)}: int(...) of a float from [{sorted(map(str, fs))[0]}]"}), dep=d, mdep=m)
+        if pos and "L" in pos[0].all_kinds():
+            return Val(ty={"int"}, kind={"L"}, fsrc=frozenset(f for f in pos[0].all_fsrc() if not isinstance(f, tuple)), dep=d, mdep=m)
+        return Val(ty={"int"}, kind={"I"}, dep=d, mdep=m)
+
     def unknown_result(self, node, vals, tag="ucall") -> Val:
         d, m = _deps(vals)
         return Val(ty={"?"}, pts={("N", self.site(node, tag))}, dep=d, mdep=m)
@@ -35,7 +46,7 @@ class CallModelsMixin:
     def nd(self, node, kind, dep=EMPTY, mdep=EMPTY, fsrc=EMPTY, objelem: Optional[Val] = None, tag="") -> Val:
         """a fresh ndarray whose numeric cells have the given kind"""
         kind = frozenset(kind)
-        if "F" not in kind:
+        if "F" not in kind and "L" not in kind:
             fsrc = EMPTY
         cell = Val(ty={"number"}, kind=kind, fsrc=fsrc, dep=dep)
         if objelem is not None:
@@ -59,7 +70,7 @@ class CallModelsMixin:
         d, m = _deps(pos + list(kw.values()))
         if cname in ("int", "np.int64", "np.integer"):
             self._conv_raises(pos, node)
-            return Val(ty={"int"}, kind={"I"}, dep=d, mdep=m)
+            return self._int_of(pos, node, d, m)
         if cname in ("float", "np.float64", "np.floating"):
             self._conv_raises(pos, node)
             return Val(ty={"float"}, kind={"F"}, fsrc=self.new_float(node, f"{cname}(...) used as a value"), dep=d, mdep=m)
@@ -68,6 +79,8 @@ class CallModelsMixin:
                 self.may_raise("TypeError", "ValueError", node=node)
             if len(pos) > 1:
                 self.may_raise("ZeroDivisionError", node=node)
+            if any("L" in p.all_kinds() for p in pos):
+                return Val(ty={"number"}, kind={"L"}, fsrc=frozenset(f for p in pos for f in p.all_fsrc() if not isinstance(f, tuple)), dep=d, mdep=m)
             return Val(ty={"number"}, kind={"Q"}, dep=d, mdep=m)
         if cname == "str":
             return mk_str().with_(dep=d)
@@ -143,7 +156,7 @@ class CallModelsMixin:
             return Val(ty={"float"}, kind={"F"}, fsrc=self.new_float(node, "float(...) used as a value"), dep=d, mdep=m)
         if name == "int":
             self._conv_raises(pos, node)
-            return Val(ty={"int"}, kind={"I"}, dep=d, mdep=m)
+            return self._int_of(pos, node, d, m)
         if name in ("str", "repr", "format", "chr"):
             return mk_str().with_(dep=d)
         if name in ("abs", "round"):
